@@ -105,6 +105,7 @@ func sweepLenAndSum(R *vlib.Out, prop string) {
 				bp = []*pop{{Set: true, Val: strings.Repeat("y", n), Route: 'c'}}
 			}
 			_ = base
+			t.Unit = 2000000 + i + fi
 			checkSer(R, prop, t, nil, bp, nil)
 		}
 		for b := 0; b < 256; b++ {
@@ -117,6 +118,7 @@ func sweepLenAndSum(R *vlib.Out, prop string) {
 				if b == 0 && pad == "" {
 					bp[0].Val = "\x00" // still non-empty
 				}
+				t.Unit = 2000000 + i + fi
 				checkSer(R, prop, t, nil, bp, nil)
 			}
 		}
